@@ -233,6 +233,32 @@ func c06roundtripCase(c *vf.Ctx, i int) {
 						c.Failf(site+"/IsForNet", "%s: IsForNet(%s)=%v, version byte %02x, that network's PrivateKeyID %02x", in(), m.Name, forNet[j], net.P.PrivateKeyID, m.P.PrivateKeyID)
 					}
 				}
+				// multi-step: the caller scribbles over the returned slice, asks
+				// again, flips the exported compression flag and asks again: every
+				// answer must be the encoding the CURRENT flag prescribes
+				var again, flipped, back []byte
+				if c.Call(site+"/SerializePubKey-sequence", in, func() {
+					for j := range pub {
+						pub[j] ^= 0xa5
+					}
+					again = w.SerializePubKey()
+					w.CompressPubKey = !w.CompressPubKey
+					flipped = w.SerializePubKey()
+					w.CompressPubKey = !w.CompressPubKey
+					back = w.SerializePubKey()
+				}) {
+					c.Evals(1)
+					other := p.Uncompressed()
+					if !compressed {
+						other = p.Compressed()
+					}
+					if !eqBytes(again, wantPub) || !eqBytes(back, wantPub) {
+						c.Failf(site+"/SerializePubKey-after-caller-mutation", "%s: after the caller modified the previously returned slice SerializePubKey()=%x / %x, the point's encoding is %x", in(), again, back, wantPub)
+					}
+					if !eqBytes(flipped, other) {
+						c.Failf(site+"/SerializePubKey-after-flag-change", "%s: with CompressPubKey set to %v SerializePubKey()=%x, the encoding for that flag is %x", in(), !compressed, flipped, other)
+					}
+				}
 			}
 			var w *bchutil.WIF
 			var err error
@@ -385,6 +411,14 @@ func c06forgedCase(c *vf.Ctx, i int) {
 		}
 		c06check(c, "foreign-appended", s+f)
 		c06check(c, "foreign-prepended", f+s)
+		if pos < len(s) {
+			// a multi-byte rune whose code point's low byte is the replaced character
+			cp := rune(1+r.Intn(0x10ff))<<8 | rune(s[pos])
+			if cp < 0xd800 || cp > 0xdfff {
+				c06check(c, "foreign-rune-aliasing-low-byte", s[:pos]+string(cp)+s[pos+1:])
+			}
+		}
+		c06check(c, "foreign-dotless-i-for-1", "\u0131"+s)
 		for _, d := range []string{"", "1", " ", ref.B58Encode(make([]byte, 37)), ref.B58Encode(make([]byte, 38))} {
 			c06check(c, "degenerate", d)
 		}
@@ -407,7 +441,16 @@ func c06forgedCase(c *vf.Ctx, i int) {
 		u := c06validRaw(r, 1) // 37 bytes
 		s34 := ref.Sha256d(append(append([]byte{}, u[:33]...), 1))
 		c06check(c, "checksum-with-phantom-marker", ref.B58Encode(append(append([]byte{}, u[:33]...), s34[:4]...)))
-		c.Count("forged_wrong_slice", 3)
+		// 38 bytes with a marker other than 0x01 and the checksum of the first 33
+		for _, mk := range []byte{0x00, 0x02, 0xff, byte(r.Intn(256))} {
+			if mk == 1 {
+				continue
+			}
+			bb := append([]byte{}, b...)
+			bb[33] = mk
+			c06check(c, fmt.Sprintf("marker=%02x-checksum-over-33", mk), ref.B58Encode(append(bb, s33[:4]...)))
+		}
+		c.Count("forged_wrong_slice", 7)
 	case 8: // single checksum bytes wrong
 		full := c06validRaw(r, v)
 		for j := len(full) - 4; j < len(full); j++ {
